@@ -293,9 +293,29 @@ func exported(name string) bool { return name != "" && name[0] >= 'A' && name[0]
 
 // ---- tokens back to Go types and values (replays, corpus) ---------------------------------------
 
-func namedType(pkg, name string) reflect.Type {
-	for _, t := range namedTypes {
+// namedType finds the named struct type of the pools; types that share name and package path
+// (function-local types) are told apart by their fields.
+func namedType(pkg, name string, fs []reflect.StructField) reflect.Type {
+	var cands []reflect.Type
+	for _, t := range allNamed16 {
 		if t.PkgPath() == pkg && t.Name() == name {
+			cands = append(cands, t)
+		}
+	}
+	if len(cands) == 1 {
+		return cands[0]
+	}
+	for _, t := range cands {
+		if t.NumField() != len(fs) {
+			continue
+		}
+		same := true
+		for i := range fs {
+			if t.Field(i).Name != fs[i].Name || t.Field(i).Type != fs[i].Type {
+				same = false
+			}
+		}
+		if same {
 			return t
 		}
 	}
@@ -385,7 +405,7 @@ func buildType(tk []string) (reflect.Type, []string, error) {
 			fs = append(fs, sf)
 		}
 		if len(name) > 0 {
-			nt := namedType(string(pkg), string(name))
+			nt := namedType(string(pkg), string(name), fs)
 			if nt == nil {
 				return nil, nil, fmt.Errorf("unknown named type %s/%s", pkg, name)
 			}
